@@ -84,7 +84,7 @@ func main() {
 	g := newGen(r)
 	nPool, nTrials := 12, 5
 	if cfg.Thorough() {
-		nPool, nTrials = 50, 40
+		nPool, nTrials = 40, 25
 		os.Setenv("C18_ORDERS", "4")
 	}
 	pool := g.pool(nPool)
@@ -109,7 +109,7 @@ func trialTimeout() time.Duration {
 	if os.Getenv("C18_ORDERS") == "4" {
 		return 600 * time.Second
 	}
-	return 240 * time.Second
+	return 420 * time.Second
 }
 
 func trialText(seed uint64, jobs []job) string {
@@ -230,8 +230,9 @@ func raceSummary(stderr string) string {
 					}
 					loc = filepath.Base(filepath.Dir(loc)) + "/" + filepath.Base(loc)
 				}
-				if p := strings.IndexByte(f, '('); p > 0 && !strings.HasPrefix(f, "(") {
-					f = f[:p]
+				f = strings.TrimSuffix(f, "()")
+				if p := strings.LastIndex(f, "/"); p >= 0 {
+					f = f[p+1:] // package-qualified name without the import path
 				}
 				frames = append(frames, f+"@"+loc)
 			}
